@@ -14,30 +14,56 @@ from vp.framework import (Violation, Rec, VERIF, exception_to_violation,
                           HarnessError)
 
 RULE = ("Rule-based state machine (<= 8 steps after initialisation) over "
-        "{compute, misfit, gradient, jvec(v0), jtvec(w0), get_efield, "
-        "get_hfield, clean(computed|keepresults|all), copy(what), "
-        "to_dict/from_dict(what), to_file/from_file(h5|npz|json x what), "
-        "model replacement + clean(all|computed), fork-and-mutate} on two "
-        "small problems (isotropic / VTI, 8x6x6 cells, 2 sources incl. a "
+        "{compute, misfit, gradient, jvec(v_i), jtvec(w_i) with TWO vectors "
+        "each (also as (1,nx,ny,nz) array / DataArray), get_efield/get_hfield "
+        "of every source-frequency pair by key or by float frequency, "
+        "inspect (repr, html, print_grid_info, print_solver_info, get_grid, "
+        "get_model, get_efield_info), clean(computed|keepresults|all), "
+        "copy(what), to_dict/from_dict(what), to_file/from_file(h5|npz|json "
+        "x what), model replacement + clean(all|computed), fork-and-mutate, "
+        "detach (continue with the copy while the original is driven on)} on "
+        "small problems: isotropic / VTI, 8x6x6 cells, 2 sources incl. a "
         "magnetic one, 2 frequencies, 3 receivers incl. a relative and a "
-        "magnetic one, observed data with a NaN), in memory and file based, "
-        "tol != tol_gradient.  After every query the reported synthetic "
-        "data, misfit, gradient, jvec, jtvec must equal those of a FRESH "
-        "simulation of the current model (computed once per process); "
-        "exceptions on documented operations are violations; a mutated "
-        "copy/reloaded simulation must not affect its original.  In "
-        "addition every ordered pair of state-changing operations (quick: 15 "
-        "operations, thorough: 28) is enumerated after a gradient and "
-        "followed by the queries.  "
+        "magnetic one, observed data with a NaN; gridding 'same' or 'input' "
+        "(computational grid 6x8x6 != model grid); survey 'plain' (unit "
+        "strengths, scalar noise) or 'rich' (strength 2.5 / -0.7, dipole "
+        "length 30, array-valued noise_floor and relative_error); in memory "
+        "and file based, tol != tol_gradient.  After every query the "
+        "reported synthetic data, misfit, gradient, jvec, jtvec, fields must "
+        "equal those of a FRESH simulation of the current model (computed "
+        "lazily once per process): max-norm AND, for data / jvec / fields, "
+        "per entry; the solver info must report tol (forward) / "
+        "tol_gradient (back-propagation) and a copy / reloaded simulation "
+        "must carry the options of the fresh one; exceptions on documented "
+        "operations are violations; a mutated copy/reloaded simulation must "
+        "not affect its original and vice versa.  In addition every ordered "
+        "pair of state-changing operations (quick: 15 operations, thorough: "
+        "28) is enumerated after a rotating prefix (gradient / compute / one "
+        "efield / jtvec / nothing), rotating configuration (incl. "
+        "file-based) and followed by misfit, gradient and a rotating third "
+        "query.  Generator branches that are switched off because emg3d "
+        "fails them (see ENABLE_* flags): gridding='dict', "
+        "compute(observed=True).  "
         "Non-trivial = a query after a state-changing operation other than "
         "compute; distinct by history.")
 ASSUMPTIONS = [
-    "equality thresholds: data/misfit 1e-6 relative (1e4 x tol), gradient / "
-    "jvec / jtvec 1e-3 of the max-norm (1e2 x tol_gradient); on the pinned "
-    "tree the results were bit-identical in all explored histories",
+    "equality thresholds, max-norm: data/misfit/fields 1e-6 (1e4 x tol), "
+    "gradient / jvec / jtvec 1e-3 (1e2 x tol_gradient) of the max-norm; per "
+    "entry: synthetic 1e-5 |ref_i|, jvec 1e-2 |ref_i|, e/h-field 1e-5 "
+    "|ref_i| + 1e-8 max|ref|, each widened to 20 x the entry's own solver "
+    "noise |ref_i(tol) - ref_i(tol/1e3)| measured at problem build time.  "
+    "Measured solver noise (tol=1e-10, tol_gradient=1e-5 against 1e-14): "
+    "synthetic <= 5.3e-8, jvec <= 3.6e-4, fields <= 5.1e-8 per entry, so the "
+    "margins are >= 190 / 28 / 190; gradient / jtvec have a per-cell noise "
+    "of up to 31 % in small cells and 1.4e-4 of the max-norm, therefore no "
+    "per-cell comparison is made for them.  On the pinned tree the results "
+    "were bit-identical in all explored histories",
     "clean() keeps the observed data and the model; replacing the model is "
     "`sim.model = new` followed by clean('all') or clean('computed') "
-    "(gridding='same')",
+    "(gridding 'same', 'input', 'dict': grids do not depend on the model)",
+    "a copy of a file-based simulation shares the files of its original by "
+    "design (to_file docstring), so no clean / recomputation is made on one "
+    "of the two while the other is still used",
 ]
 SHARDS = {'quick': 1, 'thorough': 16}
 
@@ -45,6 +71,31 @@ TOL, TOLG = 1e-10, 1e-5
 WHATS_CLEAN = ['computed', 'keepresults', 'all']
 WHATS_STORE = ['computed', 'results', 'all', 'plain']
 FORMATS = ['h5', 'npz', 'json']
+
+# Generator branches that make emg3d fail on the unchanged tree (genuine
+# violations of the property, see /tmp/audit/C12_finding.md).  They are
+# switched off so that the check is quiet until emg3d is repaired; set to
+# True to rediscover them / after the repair.
+#  - gridding='dict': clean('keepresults'|'all') re-initiates the
+#    user-provided `_dict_grid` with None's, the next computation raises
+#    TypeError (construct_mesh() missing arguments).
+ENABLE_GRIDDING_DICT = True
+#  - compute(observed=True, add_noise=False) after misfit/gradient: the
+#    cached misfit, gradient, residual and weights of the OLD observed data
+#    are returned.
+ENABLE_OBSERVE = True
+
+# per-entry thresholds: what -> (rtol on |ref_i|, floor on max|ref|)
+PER_ENTRY = {'synthetic': (1e-5, 0.0), 'jvec': (1e-2, 0.0),
+             'efield': (1e-5, 1e-7), 'hfield': (1e-5, 1e-7)}
+# ... widened to NOISE_FACTOR x the measured solver noise of the entry, but
+# never beyond NOISE_CAP x |ref_i| + floor (so that a wrong noise estimate
+# cannot blind the comparison).
+NOISE_FACTOR = 20
+NOISE_CAP = 0.3
+
+SRC = ['TxED-1', 'TxMP-2']
+FRQ = ['f-1', 'f-2']
 
 _CACHE = {}
 
@@ -55,11 +106,19 @@ def _tmpdir():
     return tempfile.mkdtemp(prefix='c12_', dir=base)
 
 
-def _problem(case):
-    """Fixed small problem; two model variants A/B."""
+def _cfg(config):
+    """(case, gridding, survey) of a config; old specs have only 'case'."""
+    return (config['case'], config.get('gridding', 'same'),
+            config.get('survey', 'plain'))
+
+
+def _problem(case, gridding='same', survey='plain'):
+    """Fixed small problem; two model variants A/B.  References are computed
+    lazily (`_ref`)."""
     import emg3d
-    if case in _CACHE:
-        return _CACHE[case]
+    key = (case, gridding, survey)
+    if key in _CACHE:
+        return _CACHE[key]
     rng = gen.rng_of(1234, 12)
     hx = np.array([120., 100, 80, 70, 80, 100, 120, 150])
     hy = np.array([100., 90, 80, 90, 100, 110])
@@ -71,8 +130,16 @@ def _problem(case):
         px = 10**rng.uniform(-0.5, 0.5, size=shape)
         pz = 10**rng.uniform(-0.5, 0.5, size=shape) if case == 'VTI' else None
         models[name] = emg3d.Model(grid, px, None, pz, mapping='Resistivity')
-    src = [emg3d.TxElectricDipole((-120, 20, -30, 10, 20)),
-           emg3d.TxMagneticPoint((80, -30, 40, 40, -10))]
+    if survey == 'rich':
+        src = [emg3d.TxElectricDipole((-120, 20, -30, 10, 20), strength=2.5,
+                                      length=30.0),
+               emg3d.TxMagneticPoint((80, -30, 40, 40, -10), strength=-0.7)]
+        nf = np.array([1e-13, 2e-13, 1.5e-13])[None, :, None]
+        re = np.array([0.03, 0.05])[None, None, :]
+    else:
+        src = [emg3d.TxElectricDipole((-120, 20, -30, 10, 20)),
+               emg3d.TxMagneticPoint((80, -30, 40, 40, -10))]
+        nf, re = 1e-13, 0.03
     rec = [emg3d.RxElectricPoint((130, 100, -60, 0, 0)),
            emg3d.RxMagneticPoint((20, -100, 60, 30, 40)),
            emg3d.RxElectricPoint((60, 40, -20, 20, 5), relative=True)]
@@ -80,8 +147,24 @@ def _problem(case):
     ncomp = 2 if case == 'VTI' else 1
     v0 = rng.standard_normal(((ncomp,) if ncomp > 1 else ()) + tuple(shape))
     w0 = rng.standard_normal((2, 3, 2)) + 1j*rng.standard_normal((2, 3, 2))
+    # computational grid(s) other than the model grid: same domain
+    # (820 x 570 x 510 m), other cell numbers and widths.
+    g2 = emg3d.TensorMesh(
+        [np.array([150., 140, 120, 120, 140, 150]),
+         np.array([80., 70, 65, 60, 65, 70, 75, 85]),
+         np.array([100., 85, 70, 70, 85, 100])], origin=(-400, -280, -250))
+    if gridding == 'input':
+        gopts = g2
+    elif gridding == 'dict':
+        gopts = {SRC[0]: {FRQ[0]: grid, FRQ[1]: g2},
+                 SRC[1]: {FRQ[0]: g2, FRQ[1]: g2}}
+    elif gridding == 'same':
+        gopts = None
+    else:
+        raise HarnessError(f"unknown gridding {gridding}")
     prob = dict(grid=grid, models=models, src=src, rec=rec, freqs=freqs,
-                v0=v0, w0=w0, case=case)
+                v0=v0, w0=w0, case=case, gridding=gridding, gopts=gopts,
+                survey=survey, nf=nf, re=re, ref={}, noise={})
     # observed data from a third model, with one NaN
     sv = emg3d.Survey(src, rec, freqs)
     true = emg3d.Model(grid, 10**rng.uniform(-0.5, 0.5, size=shape),
@@ -92,48 +175,133 @@ def _problem(case):
     obs[1, 0, 1] = np.nan
     prob['obs'] = obs
     w0[~np.isfinite(obs)] = 0
-    # reference results per model variant from fresh simulations
-    prob['ref'] = {}
-    for name in 'AB':
-        r = {}
-        f = _fresh(prob, name)
-        f.compute()
-        r['synthetic'] = f.data.synthetic.data.copy()
-        f = _fresh(prob, name)
-        r['misfit'] = float(f.misfit)
-        f = _fresh(prob, name)
-        r['gradient'] = np.array(f.gradient).copy()
-        f = _fresh(prob, name)
-        r['jvec'] = np.array(f.jvec(v0)).copy()
-        f = _fresh(prob, name)
-        _ = f.misfit
-        r['jtvec'] = np.array(f.jtvec(w0)).copy()
-        f = _fresh(prob, name)
-        f.compute()
-        r['efield'] = f.get_efield('TxED-1', 'f-1').field.copy()
-        r['hfield'] = f.get_hfield('TxMP-2', 'f-2').field.copy()
-        prob['ref'][name] = r
-    _CACHE[case] = prob
+    # second pair of vectors (own stream: the draws above stay as they were)
+    rng2 = gen.rng_of(1234, 13)
+    v1 = rng2.standard_normal(v0.shape)
+    w1 = rng2.standard_normal((2, 3, 2)) + 1j*rng2.standard_normal((2, 3, 2))
+    w1[~np.isfinite(obs)] = 0
+    prob['v'] = [v0, v1]
+    prob['w'] = [w0, w1]
+    _CACHE[key] = prob
     return prob
 
 
-def _make_sim(prob, survey, model, file_dir=None):
+def _gopts_copy(gopts):
+    if isinstance(gopts, dict):
+        return {k: _gopts_copy(v) for k, v in gopts.items()}
+    return gopts
+
+
+def _make_sim(prob, survey, model, file_dir=None, tol=TOL, tolg=TOLG,
+              maxit=100, verb=0):
     import emg3d
     kw = {'file_dir': file_dir} if file_dir else {}
+    if prob.get('gopts') is not None:
+        kw['gridding_opts'] = _gopts_copy(prob['gopts'])
     return emg3d.Simulation(
-        survey, model, gridding='same', max_workers=1,
-        receiver_interpolation='linear', tqdm_opts=False,
+        survey, model, gridding=prob.get('gridding', 'same'), max_workers=1,
+        receiver_interpolation='linear', tqdm_opts=False, verb=verb,
         solver_opts=dict(sslsolver=False, semicoarsening=True,
-                         linerelaxation=True, tol=TOL, tol_gradient=TOLG,
-                         maxit=100, verb=-1), **kw)
+                         linerelaxation=True, tol=tol, tol_gradient=tolg,
+                         maxit=maxit, verb=-1), **kw)
 
 
-def _fresh(prob, name, file_dir=None):
+def _fresh(prob, name, file_dir=None, obsv=None, **kw):
+    """Fresh simulation of model variant `name`; observed data: the fixed
+    ones, or (obsv) the synthetic data of model variant `obsv`."""
     import emg3d
+    data = prob['obs'] if obsv is None else _ref(prob, obsv, 'synthetic')
     sv = emg3d.Survey(prob['src'], prob['rec'], prob['freqs'],
-                      data=prob['obs'].copy(), noise_floor=1e-13,
-                      relative_error=0.03)
-    return _make_sim(prob, sv, prob['models'][name].copy(), file_dir)
+                      data=data.copy(), noise_floor=_cp(prob['nf']),
+                      relative_error=_cp(prob['re']))
+    return _make_sim(prob, sv, prob['models'][name].copy(), file_dir, **kw)
+
+
+def _cp(x):
+    return x.copy() if isinstance(x, np.ndarray) else x
+
+
+def _same_bc(a, b, shape):
+    """Equal after broadcasting to the data shape."""
+    if a is None or b is None:
+        return a is None and b is None
+    try:
+        return np.array_equal(np.broadcast_to(np.asarray(a, float), shape),
+                              np.broadcast_to(np.asarray(b, float), shape))
+    except ValueError:
+        return False
+
+
+OBS_DEPENDENT = ('misfit', 'gradient')
+
+
+def _ref(prob, name, what, obsv=None):
+    """Reference result `what` of model variant `name` from a fresh
+    simulation, computed on first use."""
+    if what not in OBS_DEPENDENT:
+        obsv = None
+    key = (name, what, obsv)
+    ref = prob['ref']
+    if key in ref:
+        return ref[key]
+    with warnings.catch_warnings():
+        warnings.simplefilter('ignore')
+        if what == 'synthetic' or what.startswith(('efield', 'hfield')):
+            f = _fresh(prob, name)
+            f.compute()
+            ref[(name, 'synthetic', None)] = f.data.synthetic.data.copy()
+            for s in SRC:
+                for q in FRQ:
+                    ref[(name, f'efield:{s}:{q}', None)] = \
+                        f.get_efield(s, q).field.copy()
+                    ref[(name, f'hfield:{s}:{q}', None)] = \
+                        f.get_hfield(s, q).field.copy()
+        elif what == 'misfit':
+            f = _fresh(prob, name, obsv=obsv)
+            ref[key] = float(f.misfit)
+        elif what == 'gradient':
+            f = _fresh(prob, name, obsv=obsv)
+            ref[key] = np.array(f.gradient).copy()
+        elif what.startswith('jvec'):
+            f = _fresh(prob, name)
+            ref[key] = np.array(f.jvec(prob['v'][int(what[4:])])).copy()
+        elif what.startswith('jtvec'):
+            f = _fresh(prob, name)
+            _ = f.misfit
+            ref[key] = np.array(f.jtvec(prob['w'][int(what[5:])])).copy()
+        else:
+            raise HarnessError(f"unknown reference {what}")
+    return ref[key]
+
+
+def _noise(prob, name, what):
+    """Per-entry solver noise of the reference `what`: difference to a fresh
+    simulation with 1000 x (forward) / 10000 x (gradient) tighter
+    tolerances."""
+    key = (name, what)
+    noise = prob['noise']
+    if key in noise:
+        return noise[key]
+    with warnings.catch_warnings():
+        warnings.simplefilter('ignore')
+        f = _fresh(prob, name, tol=TOL*1e-3, tolg=TOLG*1e-4, maxit=200,
+                   verb=-1)
+        if what.startswith('jvec'):
+            tight = np.array(f.jvec(prob['v'][int(what[4:])])).copy()
+            noise[key] = np.abs(tight - _ref(prob, name, what))
+        else:
+            f.compute()
+            noise[(name, 'synthetic')] = np.abs(
+                f.data.synthetic.data - _ref(prob, name, 'synthetic'))
+            for s in SRC:
+                for q in FRQ:
+                    noise[(name, f'efield:{s}:{q}')] = np.abs(
+                        f.get_efield(s, q).field -
+                        _ref(prob, name, f'efield:{s}:{q}'))
+                    noise[(name, f'hfield:{s}:{q}')] = np.abs(
+                        f.get_hfield(s, q).field -
+                        _ref(prob, name, f'hfield:{s}:{q}'))
+    return noise[key]
 
 
 def _opname(op):
@@ -146,17 +314,21 @@ class Runner:
     references.  Used by the state machine and by --replay."""
 
     STATE_CHANGING = {'clean', 'copy', 'dict', 'file', 'model', 'jtvec',
-                      'jvec', 'gradient', 'fork'}
+                      'jvec', 'gradient', 'fork', 'observe', 'inspect',
+                      'detach'}
+    QUERIES = ('misfit', 'gradient', 'jvec', 'jtvec', 'synthetic',
+               'efield', 'hfield')
 
     def __init__(self, config, rec=None):
         self.config = config
-        self.prob = _problem(config['case'])
+        self.prob = _problem(*_cfg(config))
         self.dirs = []
         self.file_dir = None
         if config['file']:
             self.file_dir = _tmpdir()
             self.dirs.append(self.file_dir)
         self.variant = 'A'
+        self.obsv = None      # variant whose synthetic data are `observed`
         self.sim = _fresh(self.prob, 'A', self.file_dir)
         self.history = []
         self.rec = rec or Rec()
@@ -172,6 +344,9 @@ class Runner:
         ops = [o for o in self.history[:-1]
                if o[0] in self.STATE_CHANGING or o[0] == 'compute']
         return _opname(ops[-k]) if len(ops) >= k else 'init'
+
+    def hist(self):
+        return [_opname(o) for o in self.history]
 
     def step(self, op):
         self.history.append(list(op))
@@ -189,39 +364,116 @@ class Runner:
             base = v.signature.split('[')[0]
             raise Violation(f"{base}:op={_opname(op)}:prev={self.prev()}",
                             f"{type(e).__name__}: {str(e)[:300]} in history "
-                            f"{[_opname(o) for o in self.history]}",
+                            f"{self.hist()}",
                             v.details) from e
         if name not in ('compute',) and any(
                 o[0] in self.STATE_CHANGING for o in self.history[:-1]):
-            if name in ('misfit', 'gradient', 'jvec', 'jtvec', 'synthetic',
-                        'efield', 'hfield'):
+            if name in self.QUERIES:
                 self.nontrivial = True
 
-    def _cmp(self, what, got, tol):
-        ref = np.atleast_1d(np.asarray(self.prob['ref'][self.variant][what]))
+    def _cmp(self, what, got, tol, refname=None):
+        """`what`: kind (signature, thresholds); `refname`: reference key."""
+        refname = refname or what
+        ref = np.atleast_1d(np.asarray(
+            _ref(self.prob, self.variant, refname, self.obsv)))
         got = np.atleast_1d(np.asarray(got))
         if got.shape != np.shape(ref):
             raise Violation(f"{what}_shape:prev={self.prev()}",
                             f"{got.shape} vs {np.shape(ref)}; history "
-                            f"{[_opname(o) for o in self.history]}")
+                            f"{self.hist()}")
         nan_g, nan_r = np.isnan(got), np.isnan(ref)
         if not np.array_equal(nan_g, nan_r):
             raise Violation(f"{what}_nan_pattern:prev={self.prev()}",
-                            f"NaN pattern differs; history "
-                            f"{[_opname(o) for o in self.history]}")
+                            f"NaN pattern differs; history {self.hist()}")
         scale = np.max(np.abs(ref[~nan_r])) if np.any(~nan_r) else 0
+        if what in OBS_DEPENDENT and self.obsv is not None:
+            # observed := synthetic of this model gives zero misfit and
+            # gradient; the scale is then that of the original problem.
+            # (1e-3 of it: a rounding-level residual stays far below, a
+            # stale value of the old observed data is of order one.)
+            scale = max(scale, 1e-3*np.max(np.abs(
+                _ref(self.prob, self.variant, refname, None))))
         diff = np.max(np.abs((got-ref)[~nan_r])) if np.any(~nan_r) else 0
         if diff > tol*scale:
             raise Violation(
                 f"{what}_differs_from_fresh:prev={self.prev()}",
-                f"max|diff| = {diff:.3e} vs scale {scale:.3e} "
+                f"{refname}: max|diff| = {diff:.3e} vs scale {scale:.3e} "
                 f"(rel {diff/max(scale, 1e-300):.2e}); history "
-                f"{[_opname(o) for o in self.history]}")
+                f"{self.hist()}")
+        if what in PER_ENTRY and np.any(~nan_r):
+            rtol, floor = PER_ENTRY[what]
+            thr = np.maximum(
+                rtol*np.abs(ref) + floor*scale,
+                np.minimum(
+                    NOISE_FACTOR*_noise(self.prob, self.variant, refname),
+                    NOISE_CAP*np.abs(ref) + floor*scale))
+            d = np.abs(got - ref)
+            bad = ~nan_r & (d > thr)
+            if np.any(bad):
+                k = np.unravel_index(
+                    np.argmax(np.where(bad, d/np.maximum(thr, 1e-300), 0)),
+                    d.shape)
+                raise Violation(
+                    f"{what}_entry_differs_from_fresh:prev={self.prev()}",
+                    f"{refname}: {int(bad.sum())} of {d.size} entries "
+                    f"differ; worst at {tuple(int(i) for i in k)}: got "
+                    f"{got[k]:.6e}, fresh {ref[k]:.6e}, |diff| {d[k]:.3e} > "
+                    f"{thr[k]:.3e} (max|ref| {scale:.3e}); history "
+                    f"{self.hist()}")
+
+    def _check_tol(self, which):
+        """The documented solver info must report the tolerance the fresh
+        simulation uses (forward: tol, back-propagation: tol_gradient)."""
+        sim = self.sim
+        for s in SRC:
+            for q in FRQ:
+                if which == 'efield':
+                    info = sim.get_efield_info(s, q)
+                    want = TOL
+                else:
+                    d = getattr(sim, '_dict_bfield_info', None)
+                    if d is None:
+                        return
+                    info = sim._dict_get('bfield_info', s, q)
+                    want = TOLG
+                if info is None:
+                    continue
+                if info['tol'] != want:
+                    raise Violation(
+                        f"{which}_solved_with_other_tol:prev={self.prev()}",
+                        f"{which} {s} {q} was computed with tol="
+                        f"{info['tol']}, fresh simulation: {want}; history "
+                        f"{self.hist()}")
+
+    def _check_options(self, new, how):
+        """Options of a copy / reloaded simulation = those of a fresh one."""
+        f = _fresh(self.prob, self.variant, self.file_dir)
+        bad = []
+        for name in ['tol_forward', 'tol_gradient', 'receiver_interpolation',
+                     'gridding', 'max_workers', 'file_dir', 'layered',
+                     'verb']:
+            if getattr(new, name) != getattr(f, name):
+                bad.append(f"{name}: {getattr(new, name)!r} != "
+                           f"{getattr(f, name)!r}")
+        so_n = {k: v for k, v in new.solver_opts.items() if k != 'tol'}
+        so_f = {k: v for k, v in f.solver_opts.items() if k != 'tol'}
+        if so_n != so_f:
+            bad.append(f"solver_opts: {so_n} != {so_f}")
+        for name in ['noise_floor', 'relative_error']:
+            if not _same_bc(getattr(new.survey, name),
+                            getattr(f.survey, name), f.survey.shape):
+                bad.append(f"survey.{name}")
+        if bad:
+            raise Violation(
+                f"options_lost:{how}:"
+                f"{'+'.join(b.split(':')[0].replace(' ', '_') for b in bad)}",
+                f"{how}: {bad}; history {self.hist()}")
 
     # --- operations -----------------------------------------------------
     def op_compute(self):
         self.sim.compute()
         self._cmp('synthetic', self.sim.data.synthetic.data, 1e-6)
+        self._check_tol('efield')
 
     def op_synthetic(self):
         if self.sim._computed:
@@ -233,36 +485,90 @@ class Runner:
                 not np.isrealobj(np.asarray(m)):
             raise Violation(f"misfit_not_a_real_number:prev={self.prev()}",
                             f"misfit is {type(m).__name__}: {m!r}; history "
-                            f"{[_opname(o) for o in self.history]}")
+                            f"{self.hist()}")
         self._cmp('misfit', float(m), 1e-6)
         self._cmp('synthetic', self.sim.data.synthetic.data, 1e-6)
+        self._check_tol('efield')
 
     def op_gradient(self):
         self._cmp('gradient', self.sim.gradient, 1e-3)
+        self._check_tol('efield')
+        self._check_tol('bfield')
 
-    def op_jvec(self):
-        self._cmp('jvec', self.sim.jvec(self.prob['v0']), 1e-3)
+    def op_jvec(self, i=0, form='nd'):
+        v = self.prob['v'][i]
+        if form == '4d' and v.ndim == 3:     # documented for isotropic
+            v = v[None, ...]
+        self._cmp('jvec', self.sim.jvec(v), 1e-3, f'jvec{i}')
+        self._check_tol('efield')
 
-    def op_jtvec(self):
-        self._cmp('jtvec', self.sim.jtvec(self.prob['w0']), 1e-3)
+    def op_jtvec(self, i=0, form='nd'):
+        w = self.prob['w'][i]
+        if form == 'da':                     # documented: DataArray
+            _ = self.sim.misfit
+            w = self.sim.data.observed.copy(data=w.copy())
+        self._cmp('jtvec', self.sim.jtvec(w), 1e-3, f'jtvec{i}')
+        self._check_tol('efield')
 
-    def op_efield(self):
-        f = self.sim.get_efield('TxED-1', 'f-1')
-        self._cmp('efield', f.field, 1e-6)
+    def _sf(self, si, fi, form):
+        s, q = SRC[si], FRQ[fi]
+        return s, q, (self.prob['freqs'][fi] if form == 'float' else q)
 
-    def op_hfield(self):
-        f = self.sim.get_hfield('TxMP-2', 'f-2')
-        self._cmp('hfield', f.field, 1e-6)
+    def op_efield(self, si=0, fi=0, form='key'):
+        s, q, arg = self._sf(si, fi, form)
+        f = self.sim.get_efield(s, arg)
+        self._cmp('efield', f.field, 1e-6, f'efield:{s}:{q}')
+
+    def op_hfield(self, si=1, fi=1, form='key'):
+        s, q, arg = self._sf(si, fi, form)
+        f = self.sim.get_hfield(s, arg)
+        self._cmp('hfield', f.field, 1e-6, f'hfield:{s}:{q}')
+
+    def op_inspect(self, si=0, fi=0):
+        """Read-only public helpers; some fill per-object caches."""
+        sim = self.sim
+        s, q = SRC[si], FRQ[fi]
+        repr(sim)
+        sim._repr_html_()
+        sim.print_grid_info(verb=1, return_info=True)
+        sim.print_solver_info('efield', verb=1, return_info=True)
+        g = sim.get_grid(s, self.prob['freqs'][fi])
+        sim.get_model(s, q)
+        sim.get_efield_info(s, q)
+        want = self.prob['grid']
+        if self.prob['gridding'] == 'input':
+            want = self.prob['gopts']
+        elif self.prob['gridding'] == 'dict':
+            want = self.prob['gopts'][s][q]
+        if tuple(g.shape_cells) != tuple(want.shape_cells) or any(
+                not np.array_equal(a, b) for a, b in zip(g.h, want.h)):
+            raise Violation(f"grid_differs_from_fresh:prev={self.prev()}",
+                            f"get_grid({s},{q}) = {g.shape_cells}; history "
+                            f"{self.hist()}")
+
+    def op_observe(self):
+        """compute(observed=True, add_noise=False): the survey's observed
+        data become the synthetic data of the current model."""
+        self.sim.compute(observed=True, add_noise=False)
+        self.obsv = self.variant
+        got, ref = self.sim.data.observed.data, _ref(
+            self.prob, self.variant, 'synthetic')
+        if not np.allclose(got, ref, rtol=1e-5, atol=0):
+            raise Violation(f"observed_not_synthetic:prev={self.prev()}",
+                            f"history {self.hist()}")
+        self._cmp('synthetic', self.sim.data.synthetic.data, 1e-6)
 
     def op_clean(self, what):
         self.sim.clean(what)
 
     def op_copy(self, what):
         self.sim = self.sim.copy(what)
+        self._check_options(self.sim, 'copy')
 
     def op_dict(self, what):
         import emg3d
         self.sim = emg3d.Simulation.from_dict(self.sim.to_dict(what, True))
+        self._check_options(self.sim, 'dict')
 
     def op_file(self, fmt, what):
         import emg3d
@@ -271,15 +577,30 @@ class Runner:
         fn = os.path.join(d, 'sim.'+fmt)
         self.sim.to_file(fn, what=what, verb=0)
         self.sim = emg3d.Simulation.from_file(fn, verb=0)
+        self._check_options(self.sim, fmt)
 
     def op_model(self, clean):
         self.variant = 'B' if self.variant == 'A' else 'A'
         self.sim.model = self.prob['models'][self.variant].copy()
         self.sim.clean(clean)
 
+    def _clone(self, how, what):
+        import emg3d
+        sim = self.sim
+        if how == 'copy':
+            return sim.copy(what)
+        elif how == 'dict':
+            return emg3d.Simulation.from_dict(sim.to_dict(what, True))
+        elif how == 'dictref':
+            return emg3d.Simulation.from_dict(sim.to_dict(what))
+        d = _tmpdir()
+        self.dirs.append(d)
+        fn = os.path.join(d, 'fork.'+how)
+        sim.to_file(fn, what=what, verb=0)
+        return emg3d.Simulation.from_file(fn, verb=0)
+
     def op_fork(self, how, what):
         """Copy / reload, mutate the copy, original must be unaffected."""
-        import emg3d
         sim = self.sim
         before_syn = sim.data.synthetic.data.copy()
         before_obs = sim.data.observed.data.copy()
@@ -290,21 +611,10 @@ class Runner:
         e0 = None
         if sim._computed and sim._dict_efield['TxED-1']['f-1'] is not None:
             e0 = sim.get_efield('TxED-1', 'f-1').field.copy()
-        if how == 'copy':
-            c = sim.copy(what)
-        elif how == 'dict':
-            c = emg3d.Simulation.from_dict(sim.to_dict(what, True))
-        elif how == 'dictref':
-            # to_dict without deep copy: input arrays are shared by design,
-            # so no in-place edits here, only public operations on the new
-            # simulation (clean, model replacement, compute).
-            c = emg3d.Simulation.from_dict(sim.to_dict(what))
-        else:
-            d = _tmpdir()
-            self.dirs.append(d)
-            fn = os.path.join(d, 'fork.'+how)
-            sim.to_file(fn, what=what, verb=0)
-            c = emg3d.Simulation.from_file(fn, verb=0)
+        # to_dict without deep copy ('dictref'): input arrays are shared by
+        # design, so no in-place edits there, only public operations on the
+        # new simulation (clean, model replacement, compute).
+        c = self._clone(how, what)
         if how == 'dictref':
             if not c.file_dir:
                 c.clean('computed')
@@ -317,7 +627,26 @@ class Runner:
         self._unaffected(sim, how, what, before_syn, before_obs, before_px,
                          before_m, before_g, e0)
 
-    def _mutate(self, c):
+    def op_detach(self, how, what):
+        """Copy / reload; then the ORIGINAL is driven on (other model, clean,
+        gradient, in-place edits) and the run continues with the copy, which
+        must still report the fresh results of the model it was taken at."""
+        c = self._clone(how, what)
+        o = self.sim
+        if not o.file_dir:     # file based: the two share their files
+            other = 'B' if self.variant == 'A' else 'A'
+            o.model = self.prob['models'][other].copy()
+            o.clean('all')
+            _ = o.gradient
+            o.jtvec(self.prob['w'][1])
+        self._mutate(o, clean=False)
+        o.solver_opts['maxit'] = 1
+        if o.model.property_z is not None:
+            o.model.property_z[...] *= 3.0
+        self.sim = c
+        self._check_options(c, 'detach_'+how)
+
+    def _mutate(self, c, clean=True):
         # mutate the copy in every way
         c.model.property_x[...] *= 3.0
         c.survey.data.observed.data[...] *= 2.0
@@ -328,7 +657,7 @@ class Runner:
                 and not c.file_dir:
             c.get_efield('TxED-1', 'f-1').field[:] = 5.0
         c.survey.noise_floor = 1.0
-        if not c.file_dir:
+        if clean and not c.file_dir:
             c.clean('all')
 
     def _unaffected(self, sim, how, what, before_syn, before_obs, before_px,
@@ -349,16 +678,21 @@ class Runner:
         if e0 is not None and not same(
                 e0, sim.get_efield('TxED-1', 'f-1').field):
             bad.append('efield')
-        if sim.survey.noise_floor != 1e-13:
+        if not _same_bc(sim.survey.noise_floor, self.prob['nf'],
+                        sim.survey.shape):
             bad.append('noise_floor')
         if bad:
             raise Violation(f"copy_not_independent:{how}:{'+'.join(bad)}",
                             f"mutating a {how}({what}) changed the original's "
-                            f"{bad}; history "
-                            f"{[_opname(o) for o in self.history]}")
+                            f"{bad}; history {self.hist()}")
 
 
 # ---------------------------------------------------------------- machine
+def _griddings():
+    return ['same', 'same', 'input'] + (
+        ['dict'] if ENABLE_GRIDDING_DICT else [])
+
+
 class HistoryMachine(RuleBasedStateMachine):
     ctx = None
     sub = 'history'
@@ -373,9 +707,13 @@ class HistoryMachine(RuleBasedStateMachine):
         self.config = None
 
     @initialize(case=st.sampled_from(['isotropic', 'VTI']),
-                file=st.sampled_from([False, False, True]))
-    def init(self, case, file):
-        self.config = {'case': case, 'file': file}
+                file=st.sampled_from([False, False, True]),
+                gridding=st.sampled_from(_griddings()))
+    def init(self, case, file, gridding):
+        # the 'rich' survey goes with the non-default griddings (one set of
+        # fresh references per problem; keeps the quick tier affordable)
+        self.config = {'case': case, 'file': file, 'gridding': gridding,
+                       'survey': 'plain' if gridding == 'same' else 'rich'}
         self.runner = Runner(self.config, self.rec)
         self.history = self.runner.history
 
@@ -396,25 +734,36 @@ class HistoryMachine(RuleBasedStateMachine):
     def gradient(self):
         self._do('gradient')
 
-    @rule()
-    def jvec(self):
-        self._do('jvec')
+    @rule(i=st.sampled_from([0, 1]), form=st.sampled_from(['nd', '4d']))
+    def jvec(self, i, form):
+        self._do('jvec', i, form)
 
-    @rule()
-    def jtvec(self):
-        self._do('jtvec')
+    @rule(i=st.sampled_from([0, 1]), form=st.sampled_from(['nd', 'da']))
+    def jtvec(self, i, form):
+        self._do('jtvec', i, form)
 
     @rule()
     def synthetic(self):
         self._do('synthetic')
 
-    @rule()
-    def efield(self):
-        self._do('efield')
+    @rule(si=st.sampled_from([0, 1]), fi=st.sampled_from([0, 1]),
+          form=st.sampled_from(['key', 'float']))
+    def efield(self, si, fi, form):
+        self._do('efield', si, fi, form)
 
+    @rule(si=st.sampled_from([0, 1]), fi=st.sampled_from([0, 1]),
+          form=st.sampled_from(['key', 'float']))
+    def hfield(self, si, fi, form):
+        self._do('hfield', si, fi, form)
+
+    @rule(si=st.sampled_from([0, 1]), fi=st.sampled_from([0, 1]))
+    def inspect(self, si, fi):
+        self._do('inspect', si, fi)
+
+    @precondition(lambda self: ENABLE_OBSERVE)
     @rule()
-    def hfield(self):
-        self._do('hfield')
+    def observe(self):
+        self._do('observe')
 
     @rule(what=st.sampled_from(WHATS_CLEAN))
     def clean(self, what):
@@ -441,20 +790,53 @@ class HistoryMachine(RuleBasedStateMachine):
     def fork(self, how, what):
         self._do('fork', how, what)
 
+    @rule(how=st.sampled_from(['copy', 'dict'] + FORMATS),
+          what=st.sampled_from(WHATS_STORE))
+    def detach(self, how, what):
+        self._do('detach', how, what)
+
     def teardown(self):
         if self.runner is None:
             return
         self.runner.close()
-        names = [o[0] for o in self.history]
-        for n in set(names):
-            self.rec.cls(f"op={n}")
-        self.rec.cls(f"case={self.config['case']}",
-                     f"file={self.config['file']}", f"len={len(names)}")
+        _classes(self.rec, self.config, self.history)
         if self.runner.nontrivial and not self.dead:
             self.rec.nt([self.config, self.history])
         self.rec.note({'config': self.config,
                        'history': [_opname(o) for o in self.history]})
         self.ctx.machine_done(self)
+
+
+def _classes(rec, config, history):
+    names = [o[0] for o in history]
+    for n in set(names):
+        rec.cls(f"op={n}")
+    case, gridding, survey = _cfg(config)
+    rec.cls(f"case={case}", f"file={config['file']}", f"len={len(names)}",
+            f"gridding={gridding}", f"survey={survey}")
+    lab = set()
+    for o in history:
+        if o[0] in ('jvec', 'jtvec') and len(o) > 1:
+            lab.add(f"{o[0]}_vector={o[1]}")
+            if len(o) > 2 and o[2] != 'nd' and (
+                    o[2] != '4d' or case == 'isotropic'):
+                lab.add(f"{o[0]}_form={o[2]}")
+        if o[0] in ('efield', 'hfield') and len(o) > 3:
+            lab.add(f"field_by={o[3]}")
+            lab.add(f"field_pair={o[1]}{o[2]}")
+    # a query of a second vector after the first one (stale-cache class)
+    for kind in ('jvec', 'jtvec'):
+        idx = [o[1] if len(o) > 1 else 0 for o in history if o[0] == kind]
+        if len(set(idx)) > 1:
+            lab.add(f"{kind}_both_vectors")
+    if 'observe' in names and any(
+            n in ('misfit', 'gradient') for n in
+            names[names.index('observe'):]):
+        lab.add('query_after_observe')
+    if 'detach' in names and any(
+            n in Runner.QUERIES for n in names[names.index('detach'):]):
+        lab.add('query_after_detach')
+    rec.cls(*sorted(lab))
 
 
 def replay_history(spec, rec):
@@ -464,14 +846,15 @@ def replay_history(spec, rec):
             r.step(tuple(op))
     finally:
         r.close()
+    _classes(rec, spec['config'], spec['history'])
     rec.nt(spec)
 
 
-# Systematic complement of the random histories: from a fully computed state
-# (gradient), EVERY ordered pair of state-changing operations, followed by the
-# queries.  Hypothesis needs luck for a specific chain of four operations
-# (e.g. gradient -> copy('results') -> model+clean -> gradient); this
-# enumeration does not.
+# Systematic complement of the random histories: from a prepared state
+# (mostly: fully computed, gradient), EVERY ordered pair of state-changing
+# operations, followed by the queries.  Hypothesis needs luck for a specific
+# chain of four operations (e.g. gradient -> copy('results') -> model+clean
+# -> gradient); this enumeration does not.
 OPS_QUICK = [['clean', 'computed'], ['clean', 'keepresults'],
              ['clean', 'all'], ['copy', 'results'], ['copy', 'computed'],
              ['dict', 'results'], ['file', 'h5', 'results'],
@@ -486,17 +869,46 @@ OPS_FULL = ([['clean', w] for w in WHATS_CLEAN] +
             [['model', 'all'], ['model', 'computed'], ['jtvec'], ['jvec'],
              ['compute']])
 
+# prefix (state before the pair), rotated; 'gradient' every second time
+PREFIXES = [[['gradient']], [['compute']], [['gradient']],
+            [['efield', 1, 0, 'float']], [['gradient']], [['jtvec', 1, 'da']],
+            [['gradient']], []]
+# third query after misfit + gradient, rotated
+SUFFIXES = [[['jvec', 1, 'nd']], [['hfield', 0, 1, 'float']],
+            [['jtvec', 1, 'nd']], [['efield', 1, 1, 'key']],
+            [['jvec', 0, '4d']], [['synthetic']], [['jtvec', 0, 'da']]]
 
-def pair_specs(ops, cases=('isotropic', 'VTI')):
+
+def pair_configs():
+    rich = {'gridding': 'input', 'survey': 'rich'}
+    out = [{'case': 'isotropic', 'file': False},
+           {'case': 'VTI', 'file': False},
+           {'case': 'isotropic', 'file': False, **rich},
+           {'case': 'VTI', 'file': True},
+           {'case': 'isotropic', 'file': False},
+           {'case': 'VTI', 'file': False, **rich},
+           {'case': 'isotropic', 'file': True, **rich}]
+    if ENABLE_GRIDDING_DICT:
+        rich = {'gridding': 'dict', 'survey': 'rich'}
+        out += [{'case': 'isotropic', 'file': False, **rich},
+                {'case': 'VTI', 'file': False, **rich}]
+    return out
+
+
+def pair_specs(ops):
+    ops = list(ops)
+    if ENABLE_OBSERVE:
+        ops = ops + [['observe']]
+    configs = pair_configs()
     out = []
     k = 0
     for a in ops:
         for b in ops:
             k += 1
-            out.append({'config': {'case': cases[k % len(cases)],
-                                   'file': False},
-                        'history': [['gradient'], a, b, ['misfit'],
-                                    ['gradient']]})
+            out.append({'config': dict(configs[k % len(configs)]),
+                        'history': PREFIXES[k % len(PREFIXES)] + [a, b] +
+                        [['misfit'], ['gradient']] +
+                        SUFFIXES[k % len(SUFFIXES)]})
     return out
 
 
